@@ -201,10 +201,15 @@ func (b *Body) instr(in ssa.Instruction, blk *ssa.BasicBlock, reach *T, st State
 	case *ssa.MakeChan:
 		b.freshRef(x)
 	case *ssa.Select:
-		b.declVal(x)
-		ft.abstraction("select (yield point; received values arbitrary)")
+		sv := b.declVal(x)
+		if x.Blocking && len(sv.Tuple) > 0 {
+			ft.fact(And(A("<=", Int(0), sv.Tuple[0].T), A("<", sv.Tuple[0].T, Int(int64(len(x.States))))))
+		}
+		b.yield(blk, st)
+		ft.abstraction("select (yield point: ghost state arbitrary afterwards, received values arbitrary)")
 	case *ssa.Send:
-		ft.abstraction("channel send (yield point)")
+		b.yield(blk, st)
+		ft.abstraction("channel send (yield point: ghost state arbitrary afterwards)")
 	case *ssa.Call:
 		b.call(x, &x.Call, blk, reach, st, x.Pos())
 	case *ssa.Go:
@@ -350,7 +355,8 @@ func (b *Body) unop(x *ssa.UnOp, blk *ssa.BasicBlock, reach *T, st State) {
 		}
 	case token.ARROW:
 		b.declVal(x)
-		ft.abstraction("channel receive (yield point; value arbitrary)")
+		b.yield(blk, st)
+		ft.abstraction("channel receive (yield point: ghost state arbitrary afterwards, value arbitrary)")
 	default:
 		b.declVal(x)
 		ft.abstraction("unop " + x.Op.String())
@@ -788,3 +794,24 @@ func (b *Body) next(x *ssa.Next, blk *ssa.BasicBlock, reach *T, st State) {
 }
 
 var _ = strings.HasPrefix
+
+// yield models a blocking point: other requests may run, so every ghost
+// variable is arbitrary afterwards, subject to the rely that counters do not
+// decrease and grow-only sets only grow.
+func (b *Body) yield(blk *ssa.BasicBlock, st State) {
+	ft := b.ft
+	P := ft.e.prelude
+	for _, g := range P.GhostOrder {
+		old := ft.region(st, g)
+		ft.havocRegion(st, g)
+		b.recordWrite(blk, g, nil)
+		if P.Monotone[g] {
+			ft.fact(A(">=", st[g], old))
+		}
+		if P.Grows[g] {
+			ks, _ := splitArraySort(P.Ghosts[g])
+			y := fmt.Sprintf("j!%d", ft.count("qv"))
+			ft.fact(Forall([][2]string{{y, ks}}, Imp(Sel(old, L(y)), Sel(st[g], L(y))), []*T{Sel(st[g], L(y))}))
+		}
+	}
+}
